@@ -399,8 +399,8 @@ package xpath
 //@   ensures[nonnil@C15] result != nil
 //@   requires[nonnil-args@C15] arg1 != nil && arg2 != nil
 //@ func matchesFunc$1
-//@   props C15 C04 C05 C13
-//@   theory stream for C04 C05 C14 C13
+//@   props C15 C04 C05 C13 C16
+//@   theory stream for C04 C05 C14 C13 C16
 //@   ensures[pure-arg1@C04,C05] stateless(arg1) || k(arg1) == old(k(arg1)) && epoch(arg1) == old(epoch(arg1))
 //@   ensures[pure-arg2@C04,C05] stateless(arg2) || k(arg2) == old(k(arg2)) && epoch(arg2) == old(epoch(arg2))
 //@   panics "matches() function second argument "
@@ -408,6 +408,8 @@ package xpath
 //@   captures arg1 != nil && arg2 != nil
 //@   uses one-document
 //@   loop * invariant[cursor@C13] cur(t) == old(cur(t)) && pos(cur(t)) == old(pos(cur(t)))
+//@   ensures[boolean@C16] is(result, bool)
+//@   ensures[matches@C16] bound(re, 0) ==> result == box(re_match(re, s)) && re == as(loadval(RegexpCache, box(pattern)), *regexp.Regexp)
 
 //@ func normalizespaceFunc
 //@   props C15
@@ -499,8 +501,8 @@ package xpath
 //@   ensures[nonnil@C15] result != nil
 //@   requires[nonnil-args@C15] arg1 != nil && arg2 != nil && arg3 != nil
 //@ func replaceFunc$1
-//@   props C15 C04 C05 C13
-//@   theory stream for C04 C05 C14 C13
+//@   props C15 C04 C05 C13 C16
+//@   theory stream for C04 C05 C14 C13 C16
 //@   ensures[pure-arg1@C04,C05] stateless(arg1) || k(arg1) == old(k(arg1)) && epoch(arg1) == old(epoch(arg1))
 //@   ensures[pure-arg2@C04,C05] stateless(arg2) || k(arg2) == old(k(arg2)) && epoch(arg2) == old(epoch(arg2))
 //@   ensures[pure-arg3@C04,C05] stateless(arg3) || k(arg3) == old(k(arg3)) && epoch(arg3) == old(epoch(arg3))
@@ -510,6 +512,7 @@ package xpath
 //@   loop 0 invariant[pure@C04,C05] (stateless(arg1) || k(arg1) == old(k(arg1)) && epoch(arg1) == old(epoch(arg1))) && (stateless(arg2) || k(arg2) == old(k(arg2)) && epoch(arg2) == old(epoch(arg2))) && (stateless(arg3) || k(arg3) == old(k(arg3)) && epoch(arg3) == old(epoch(arg3)))
 //@   uses one-document
 //@   loop * invariant[cursor@C13] cur(t) == old(cur(t)) && pos(cur(t)) == old(pos(cur(t)))
+//@   ensures[replace@C16] bound(e, 0) ==> result == box(re_replace(e, str, dst)) && e == as(loadval(RegexpCache, box(src)), *regexp.Regexp)
 
 //@ func notFunc
 //@   props C15
@@ -1290,7 +1293,7 @@ package xpath
 //@   requires root != nil
 //@   ensures[wf@C15] built(result0, result1)
 //@ func (*builder).processFunction
-//@   props C15 C06 C17
+//@   props C15 C06 C17 C16
 //@   requires[depth@C06] 0 <= b.parseDepth && b.parseDepth <= 1024
 //@   maypanic
 //@   decreases 1024 - b.parseDepth, 1
@@ -1303,6 +1306,7 @@ package xpath
 //@   loop 0 invariant[depth@C06] b.parseDepth == old(b.parseDepth)
 //@   ensures[known-function@C17] result1 == nil ==> fnKnown(root.FuncName)
 //@   ensures[arity@C17] result1 == nil ==> len(root.Args) >= minArgs(root.FuncName)
+//@   ensures[constant-pattern@C16] result1 == nil && (root.FuncName == "matches" || root.FuncName == "replace") && bound(arg2, 0) && is(arg2, *constantQuery) && is(as(arg2, *constantQuery).Val, string) ==> loadok(RegexpCache, box(as(as(arg2, *constantQuery).Val, string)))
 //@ func (*builder).processOperator
 //@   props C15 C06 C17 C08 C07
 //@   ensures[plus@C08] result1 == nil && root.Op == "+" ==> is(result0, *numericQuery) && fn(as(result0, *numericQuery).Do) == fnid("plusFunc")
@@ -1663,6 +1667,7 @@ package xpath
 //@   requires[regexp-cache@C15,C16] RegexpCache != nil && regexLoader(RegexpCache.load)
 //@   modifies heap(F:loadingCache.m), heap(F:loadingCache.reset), heap(M:map[interface{}]interface{}*)
 //@   ensures[nonnil@C15,C16] result1 == nil ==> result0 != nil
+//@   ensures[exact@C16] (result1 == nil ==> loadok(RegexpCache, box(pattern)) && result0 == as(loadval(RegexpCache, box(pattern)), *regexp.Regexp)) && (result1 != nil ==> !loadok(RegexpCache, box(pattern)))
 
 // ---------------------------------------------------------------------------
 // Streams (ghost). For a query object q: epoch(q) counts its resets (Evaluate), k(q) the
